@@ -427,3 +427,83 @@ def patch_build_unknown_replay():
         return None
 
     return replay
+
+
+# ---- C11: compound queries through every entry point
+
+def _compound_expected(cp, data, nodes):
+    """The specification (specs/compound.py) over the real operands of a compiled compound query."""
+    import specs.compound as cspec
+
+    fn = cspec.compound_nodes if nodes else cspec.compound_values
+    return fn(cp.path, cp.paths, data, None, cp.env.union_token)
+
+
+def compound_replay(mode):
+    def replay(inputs):
+        import copy
+
+        jp = importlib.import_module("jsonpath")
+        pathm = importlib.import_module("jsonpath.path")
+        q, data = inputs.get("query"), inputs.get("document")
+        if q is None:
+            return None  # the counter-model lives in the abstraction: the witness search supplies real queries
+        cp = jp.compile(q)
+        if not isinstance(cp, pathm.CompoundJSONPath):
+            return None
+        d = copy.deepcopy(data)
+        want_nodes = [(m.obj, m.path) for m in _compound_expected(cp, d, True)]
+        want_values = _compound_expected(cp, d, False)
+        try:
+            if mode == "findall":
+                got, want = cp.findall(d), want_values
+            elif mode == "findall_async":
+                got, want = asyncio.run(cp.findall_async(d)), want_values
+                if got == want and cp.findall(copy.deepcopy(data)) != got:
+                    return f"compile({q!r}).findall({data!r}) -> {cp.findall(copy.deepcopy(data))!r} but findall_async -> {got!r}"
+            elif mode == "finditer":
+                got, want = [(m.obj, m.path) for m in cp.finditer(d)], want_nodes
+            elif mode == "finditer_async":
+
+                async def go():
+                    return [(m.obj, m.path) async for m in await cp.finditer_async(d)]
+
+                got, want = asyncio.run(go()), want_nodes
+                sync = [(m.obj, m.path) for m in cp.finditer(copy.deepcopy(data))]
+                if got == want and sync != got:
+                    return f"compile({q!r}).finditer({data!r}) -> {sync!r} but finditer_async -> {got!r}"
+            else:
+                m = cp.match(d)
+                got, want = (None if m is None else (m.obj, m.path)), (want_nodes[0] if want_nodes else None)
+        except Exception as e:  # noqa: BLE001
+            got, want = f"raises {type(e).__name__}: {e}", (want_nodes if "iter" in mode or mode == "match" else want_values)
+        if got != want:
+            return f"compile({q!r}).{mode}({data!r}) -> {got!r}; left-to-right union/intersection of the operands' results is {want!r}"
+        return None
+
+    return replay
+
+
+def compound_candidates():
+    docs = [
+        {"a": [1, 2, 3], "b": [2, 3, 4], "c": [3, 5]},
+        {"a": [1, 1, 2], "b": [1], "c": []},
+        {"a": [{"x": 1}, {"x": 2}], "b": [{"x": 2}], "c": [{"x": 1}, {"x": 2}]},
+        [[1, 2], [2, 3], [3]],
+    ]
+    queries = [
+        "$.a[*] | $.b[*]",
+        "$.a[*] & $.b[*]",
+        "$.a[*] & $.b[*] & $.c[*]",
+        "$.a[*] | $.b[*] & $.c[*]",
+        "$.a[*] & $.b[*] | $.c[*]",
+        "$.a[*] | $.b[*] | $.c[*]",
+        "$.c[*] & $.a[*] & $.b[*]",
+        "$[0][*] | $[1][*]",
+        "$[0][*] & $[1][*]",
+        "$[0][*] & $[1][*] & $[2][*]",
+        "$[0][*] | $[1][*] & $[2][*]",
+    ]
+    for q in queries:
+        for d in docs:
+            yield {"query": q, "document": d}
